@@ -127,7 +127,7 @@ def run_shard(sh):
                 break
             r = S.random_walk(cfg, [LedgerMonitor], alpha, rng, sh['length'], multi=True,
                               weights={'TICK': 6, 'ACCEPT': 3, 'REFUSE': 2, 'STOP': 0.7, 'START': 1.5},
-                              rest=('Q_UPD', 'Q_NOTI') if i % 3 == 0 else ())
+                              rest=('Q_UPD', 'Q_NOTI') if i % 3 == 0 else (), lazy=0.3 if i % 2 else 0.0)
             r.monitors[0].final()
             note(r)
             res['evaluations'] += 1
